@@ -29,7 +29,7 @@ LEVELS = {
         {'name': 'L4-TN-M1-K2', 'templates': ['TN1', 'TN2'], 'M': 1, 'K': 2, 'namings': ['id', 'rev'], 'constr': 1, 'budget_s': 40},
         {'name': 'L6-plant-K5', 'fixed': ['plant', 'plant_s'], 'K': 5, 'events': 'abcdefg', 'namings': ['id'], 'M': 9, 'budget_s': 60},
         {'name': 'L5-TN3-M2-K3', 'templates': ['TN3'], 'M': 2, 'K': 3, 'namings': ['id', 'rev'], 'nevents': 1, 'hist_target': 1,
-         'guards': 0, 'budget_s': 60},
+         'guards': 0, 'budget_s': 100},
     ],
     'thorough': [
         {'name': 'L1-N3-M3-K3', 'N': 3, 'M': 3, 'K': 3, 'namings': ['id', 'rev'], 'budget_s': 300},
